@@ -411,6 +411,38 @@ def r15_7(prog, rep):
         rep.broken_("rule=R15.7 expected >=2 computed weekday results in scale.c, found %d" % n)
 
 
+def _may_wrap(f, v):
+    """Can the unsigned local/parameter v hold a value near 2^32?  Not if all its definitions are constants and upward steps (a counting
+    index); yes if it is a parameter or defined by an expression that subtracts something that is not a constant."""
+    decl = [l_ for l_ in f.locals if l_["n"] == v] + [p_ for p_ in f.params if p_["n"] == v]
+    if decl and decl[0].get("s"):
+        return False        # signed: handled by the lower-bound clause
+    if any(p_["n"] == v for p_ in f.params):
+        return True
+    cfg = f.cfg
+    for b, i, x, line in cfg.all_elems():
+        if not isinstance(x, dict):
+            continue
+        for l, kind, nn in writes(x):
+            if lv(l) != v:
+                continue
+            if kind == "incdec":
+                if "--" in nn.get("op", ""):
+                    return True
+                continue
+            rhs = nn.get("init") if kind == "decl" else nn.get("r")
+            if rhs is None:
+                continue
+            if kind == "compound" and nn.get("op") == "-=":
+                return True
+            for q in walk(f.expand(cfg.resolve(rhs))):
+                if q.get("k") == "bin" and q["op"] == "-" and int_value(q["r"]) is None:
+                    return True
+                if q.get("k") == "call":
+                    return True
+    return False
+
+
 def r15_4(prog, rep):
     """Every index into a month-transition table is dominated by index < number-of-months (the out-of-coverage test is the
     exact negation of what the table access needs)."""
@@ -445,14 +477,20 @@ def r15_4(prog, rep):
                             return lv(e), 0
                         v_, c_ = off(idx)
                         ok = False
+                        wraps = []
                         for fx in facts:
                             if fx[0] != "lt" or fx[2] != nm:
                                 continue
                             mm = re.fullmatch(r"\((\w+) ([+-]) (\d+)\)", fx[1])
                             fv, fc = (mm.group(1), int(mm.group(3)) * (1 if mm.group(2) == "+" else -1)) if mm else (fx[1], 0)
-                            # v + fc < nm bounds v + c for every c <= fc
+                            # v + fc < nm bounds v + c for every c <= fc — unless v + fc can wrap: an unsigned v that is the result of
+                            # a subtraction may be 2^32 - fc .. 2^32 - 1, then v + fc is a small number that passes the test while
+                            # v + c (c < fc) is a huge index.  A counting index (constant start, stepped upwards) cannot get there.
                             if fv == v_ and c_ <= fc:
-                                ok = True
+                                if c_ < fc and c_ >= 0 and _may_wrap(f, v_):
+                                    wraps.append((fx, fc))
+                                else:
+                                    ok = True
                         low = True
                         # a signed index needs its own lower bound (an unsigned one wraps to a huge value that the upper test rejects)
                         decl = [l_ for l_ in f.locals if l_["n"] == v_] + [p_ for p_ in f.params if p_["n"] == v_]
@@ -467,6 +505,14 @@ def r15_4(prog, rep):
                             # v - c needs v >= c: for c == 1 any proof that v is non-zero
                             low = c_ == -1 and any(
                                 fx in facts for fx in (("true", v_), ("ne", v_, "0"), ("lt", "0", v_), ("le", "1", v_)))
+                        if not ok and wraps:
+                            rep.fail(rid, key, f.loc(nn.get("line", line)),
+                                     "the table is read at [%s]; the only bound on the way is `%s + %d < %s`, and %s is an unsigned difference: for the month "
+                                     "just before the table's first one it is 2^32 - %d, `%s + %d` wraps to %d and passes, and [%s] is an index of four "
+                                     "thousand million — a read far outside the table (SIGSEGV) instead of a rejected date" % (
+                                         show(idx), v_, wraps[0][1], nm, v_, wraps[0][1] - c_ if wraps[0][1] - c_ > 0 else 1, v_, wraps[0][1],
+                                         c_, show(idx)))
+                            continue
                         if ok and not low:
                             rep.fail(rid, key, f.loc(nn.get("line", line)),
                                      "the month-transition table is read at [%s] without `%s >= %d` on every path: a day before the table's first month "
